@@ -94,9 +94,14 @@ func Run(cfg hx.Config) error {
 	h := &harness{cfg: cfg, r: r, rnd: hx.NewRand(cfg.Seed)}
 	r.Rule = "well-formed tar archives / rpm headers / bdb and ndb package databases from grammar-directed generators, then structure-aware mutations " +
 		"(truncation at structural boundaries, field-targeted edits of sizes, counts, offsets, types, magics, page links; byte flips; splices). " +
-		"An op is non-trivial when the real reader got past its first validity check (for tar: read at least two blocks or reported a segment)."
+		"An op is non-trivial when the real reader got past its first validity check (for tar: read at least two blocks or reported a segment). " +
+		"Search half: layers assembled from 1-4 generated files at the paths the built-in scanners read (dpkg, apk, rpm bdb/ndb/sqlite, python, nodejs, ruby, jars incl. nested and lying zip headers, Go executables, os-release family, content manifests, Dockerfiles, whiteouts), each file well-formed or mutated, plus mutated tar streams and hand-built tar oddities (link loops, colliding names, huge sizes, PAX records); Layer.Init and each of the 23 scanners is one evaluation, non-trivial when the scanner returned items or an error."
 	h.corpus()
 	h.knownWitnesses()
+	// The search runs before the in-process streams: its observations come from
+	// child processes, so nothing the implementation does there can take the
+	// harness down before they are recorded.
+	h.searchStream()
 	h.pnumStream()
 	h.segStream()
 	h.rpmHdrStream()
